@@ -20,6 +20,7 @@ import Fir.Proofs.IeeeLemmas
 import Fir.Proofs.SimdU8x4Lemmas
 import Fir.Proofs.SimdVertU8Lemmas
 import Fir.Proofs.SimdU8x3Lemmas
+import Fir.Proofs.SimdVertU16Lemmas
 
 namespace Fir.C02
 open Fir
@@ -338,5 +339,30 @@ theorem u8x3_sse4_one_row_eq_portable (p w : Nat) (hp : p < 32) (row : List Int)
 
 theorem u8x3_sse4_one_row_source_as_modelled : Fir.Gen.u8x3_sse4_one_row_skeleton =
     "_mm_set1_epi32(1 << (PRECISION - 1)) ; saturating_sub(5) ; chunks_exact(4) ; simd_utils::loadl_epi64(k, 0) ; simd_utils::loadu_si128(src_row, x) ; _mm_shuffle_epi8(source, pix_sh1) ; _mm_shuffle_epi8(ksource, coef_sh1) ; _mm_add_epi32(sss, _mm_madd_epi16(pix, mmk)) ; _mm_shuffle_epi8(source, pix_sh2) ; _mm_shuffle_epi8(ksource, coef_sh2) ; _mm_add_epi32(sss, _mm_madd_epi16(pix, mmk)) ; saturating_sub(2) ; chunks_exact(2) ; simd_utils::mm_load_and_clone_i16x2(k) ; simd_utils::loadl_epi64(src_row, x) ; _mm_shuffle_epi8(source, pix_sh1) ; _mm_add_epi32(sss, _mm_madd_epi16(pix, mmk)) ; split_at(x - x_start) ; simd_utils::mm_cvtepu8_epi32_u8x3(src_row, x) ; _mm_set1_epi32(k as i32) ; _mm_add_epi32(sss, _mm_madd_epi16(pix, mmk)) ; _mm_srai_epi32::<PRECISION>(sss) ; _mm_packs_epi32(sss, sss) ; _mm_cvtsi128_si32(_mm_packus_epi16(sss, sss)) | if x < max_x ; if x >= max_x ; if x < max_x ; if x >= max_x" := by rfl
+
+/-! ### 16-bit components: the SSE4.1 vertical pass (U16, U16x2, U16x3, U16x4), lane by lane
+
+    `Fir.Model.SimdVertU16` follows `vert_convolution_into_one_row_u16` of src/convolution/vertical_u16/sse4.rs: `_mm_shuffle_epi8`
+    with `c_shuffles[0..3]` (from the source) puts two components into the low halves of the 64-bit lanes,
+    `_mm_mul_epi32` multiplies them with the `i32` coefficient, `_mm_add_epi64` accumulates in `i64`, and every lane goes
+    through the portable `Normalizer32::clip`.  `dotV16 rows ks x` is what the portable kernel accumulates. -/
+
+theorem vert_u16_sse4_chunk16_eq_portable (p : Nat) (rows : List (List Int)) (ks : List Int) (h : ks.length ≤ rows.length) (x : Nat) :
+    Fir.SimdVertU16.chunk16 p rows ks x
+      = (List.range 16).map fun j => clip16 (2 ^ (p - 1) + Fir.SimdVertU16.dotV16 rows ks (x + j)) p :=
+  Fir.Proofs.vert_u16_sse4_chunk16_eq p rows ks h x
+
+theorem vert_u16_sse4_chunk8_eq_portable (p : Nat) (rows : List (List Int)) (ks : List Int) (h : ks.length ≤ rows.length) (x : Nat) :
+    Fir.SimdVertU16.block8 p rows ks x
+      = (List.range 8).map fun j => clip16 (2 ^ (p - 1) + Fir.SimdVertU16.dotV16 rows ks (x + j)) p :=
+  Fir.Proofs.block8u_eq p rows ks h x
+
+theorem vert_u16_sse4_chunk4_eq_portable (p : Nat) (rows : List (List Int)) (ks : List Int) (h : ks.length ≤ rows.length) (x : Nat) :
+    Fir.SimdVertU16.chunk4 p rows ks x
+      = (List.range 4).map fun j => clip16 (2 ^ (p - 1) + Fir.SimdVertU16.dotV16 rows ks (x + j)) p :=
+  Fir.Proofs.vert_u16_sse4_chunk4_eq p rows ks h x
+
+theorem vert_u16_sse4_source_as_modelled : Fir.Gen.vert_u16_sse4_skeleton =
+    "_mm_set1_epi64x(1 << (precision - 1)) ; chunks_exact_mut(16) ; chunks_exact(2) ; remainder() ; iter_2_rows(y_start, max_rows) ; _mm_set1_epi64x(two_coeffs[r] as i64) ; simd_utils::loadu_si128(src_rows[r], src_x + x * 8) ; _mm_shuffle_epi8(source, c_shuffles[i]) ; _mm_add_epi64(sums[i][x], _mm_mul_epi32(c_i64x2, coeff_i64x2)) ; first() ; iter_rows(y_start + y) ; _mm_set1_epi64x(k as i64) ; simd_utils::loadu_si128(components, src_x + x * 8) ; _mm_shuffle_epi8(source, c_shuffles[i]) ; _mm_add_epi64(sums[i][x], _mm_mul_epi32(c_i64x2, coeff_i64x2)) ; _mm_storeu_si128(c_buf.as_mut_ptr() as *mut __m128i, sum[x]) ; normalizer.clip(c_buf[0]) ; normalizer.clip(c_buf[1]) ; into_remainder() ; chunks_exact_mut(8) ; chunks_exact(2) ; remainder() ; iter_2_rows(y_start, max_rows) ; _mm_set1_epi64x(two_coeffs[0] as i64) ; _mm_set1_epi64x(two_coeffs[1] as i64) ; simd_utils::loadu_si128(src_rows[r], src_x) ; _mm_shuffle_epi8(source, c_shuffles[i]) ; _mm_add_epi64(sums[i], _mm_mul_epi32(c_i64x2, coeffs_i64[r])) ; first() ; iter_rows(y_start + y) ; _mm_set1_epi64x(k as i64) ; simd_utils::loadu_si128(components, src_x) ; _mm_shuffle_epi8(source, c_shuffles[i]) ; _mm_add_epi64(sums[i], _mm_mul_epi32(c_i64x2, coeff_i64x2)) ; _mm_storeu_si128(c_buf.as_mut_ptr() as *mut __m128i, sum) ; normalizer.clip(c_buf[0]) ; normalizer.clip(c_buf[1]) ; into_remainder() ; chunks_exact_mut(4) ; chunks_exact(2) ; remainder() ; iter_2_rows(y_start, max_rows) ; _mm_set1_epi64x(two_coeffs[0] as i64) ; _mm_set1_epi64x(two_coeffs[1] as i64) ; _mm_set_epi64x(comp_x4[1] as i64, comp_x4[0] as i64) ; _mm_add_epi64(c01, _mm_mul_epi32(c_i64x2, coeffs_i64[r])) ; _mm_set_epi64x(comp_x4[3] as i64, comp_x4[2] as i64) ; _mm_add_epi64(c23, _mm_mul_epi32(c_i64x2, coeffs_i64[r])) ; first() ; iter_rows(y_start + y) ; _mm_set1_epi64x(k as i64) ; _mm_set_epi64x(comp_x4[1] as i64, comp_x4[0] as i64) ; _mm_add_epi64(c01, _mm_mul_epi32(c_i64x2, coeff_i64x2)) ; _mm_set_epi64x(comp_x4[3] as i64, comp_x4[2] as i64) ; _mm_add_epi64(c23, _mm_mul_epi32(c_i64x2, coeff_i64x2)) ; _mm_storeu_si128(c_buf.as_mut_ptr() as *mut __m128i, c01) ; normalizer.clip(c_buf[0]) ; normalizer.clip(c_buf[1]) ; _mm_storeu_si128(c_buf.as_mut_ptr() as *mut __m128i, c23) ; normalizer.clip(c_buf[0]) ; normalizer.clip(c_buf[1]) ; into_remainder() ; convolution_by_u16(src_view, normalizer, initial, dst_u16, src_x, y_start, coeffs,)" := by rfl
 
 end Fir.C02
